@@ -48,6 +48,16 @@ DOC_ATOMS = [b"null", b"true", b"false", b"0", b"-0", b"1.5", b"1e5", b"1E+2", b
              b"01", b"1.", b".5", b"+1", b"1e", b"\"\\x\"", b"\"\x01\"", b"[1,]", b"{\"a\":}", b"{a:1}", b"[1 2]", b"nul", b"tru", b"\"abc", b"{\"a\":1,}", b"--1", b"0x10",
              b"\"\\ud800\"", b"\"\\udc00\\ud800\"", b"1e400", b"-", b"[", b"{\"a\"", b" 1 ", b"\t[ 1 , 2 ]\n", b"1 2", b"{\"a\":1}x", b"\xef\xbb\xbf1", b"\"\xff\""]
 
+def number_shapes():
+    """every combination of sign, integer part, fraction and exponent shapes of the JSON number grammar, valid and not"""
+    out = []
+    for sign in (b"", b"-", b"+", b"--"):
+        for ip in (b"", b"0", b"00", b"01", b"1", b"10", b"9007199254740993"):
+            for fr in (b"", b".", b".0", b".5", b".05", b"..5"):
+                for ex in (b"", b"e", b"e1", b"E+1", b"e-0", b"e+", b"e01", b"ee1"):
+                    out.append(sign + ip + fr + ex)
+    return out
+
 def gen_doc(rng, depth):
     if depth <= 0 or rng.random() < .4: return rng.choice(DOC_ATOMS)
     k = rng.randrange(3)
@@ -71,6 +81,8 @@ def run(rep, br, proofs, rng, tier):
         if k == 0: cases.append(mk_case("r%d" % i, "jsonstr", rng.choice(["0", "1"]), hexs(bytes(rng.choice([rng.randrange(256), rng.randrange(128), rng.choice(b"\"\\<>&\x08\x0c\n\xe2\x80\xa8\xa9\xc3\xa9\xff")]) for _ in range(rng.randrange(0, 12))))))
         elif k == 1: cases.append(mk_case("m%d" % i, "jsonmarshal", gen_val(rng, rng.choice([0, 1, 2, 3, 4]), plain=rng.random() < .8)))
         else: cases.append(mk_case("d%d" % i, "jsondoc", hexs(gen_doc(rng, rng.choice([0, 1, 2, 3])))))
+    for i, d in enumerate(number_shapes()):
+        cases.append(mk_case("n%d" % i, "jsondoc", hexs(d if i % 3 else b"[" + d + b"]" if i % 2 else b"{\"a\":" + d + b"}")))
     impl, _ = vlib.run_impl([c["line"] for c in cases], timeout=2400)
     strcases = [c for c in cases if c["kind"] == "jsonstr"]
     model_s, _ = vlib.run_model([c["line"] for c in strcases], timeout=1200)
@@ -130,7 +142,7 @@ def run(rep, br, proofs, rng, tier):
             rep.violation({"property": "C17", "kind": "correspondence", "why": c.get("why", "string escaping model (Json/Json.v) and Marshal disagree"), "case": c["line"][:2000], "impl": str(c.get("impl"))[:400], "model": str(c.get("model"))[:400]}, found=False)
     rep.coverage.update({
         "evaluations": len(cases) + len(vcases), "distinct_nontrivial": stats["marshal_equal"] + stats["docs_accepted"] + stats["docs_rejected"],
-        "rule": "strings over control characters, quotes, HTML characters, U+2028/9, valid and every kind of invalid UTF-8, with and without HTML escaping: Marshal vs the Coq escaping model and the recogniser; nested values of every type (NaN/Inf, chars, bytes, non-UTF-8 keys, functions, errors, sync maps): Marshal vs encoding/json on ToInterface(v), and every output through the recogniser json_valid; documents (valid, near-valid, mutated, whitespace, bad numbers, bad escapes, truncated): Unmarshal, Valid, Compact and Indent vs encoding/json, and Valid vs the recogniser; non-trivial = outputs compared equal / documents classified",
+        "rule": "strings over control characters, quotes, HTML characters, U+2028/9, valid and every kind of invalid UTF-8, with and without HTML escaping: Marshal vs the Coq escaping model and the recogniser; nested values of every type (NaN/Inf, chars, bytes, non-UTF-8 keys, functions, errors, sync maps): Marshal vs encoding/json on ToInterface(v), and every output through the recogniser json_valid; documents (valid, near-valid, mutated, whitespace, every combination of sign / integer part / fraction / exponent shapes of the number grammar, bad escapes, truncated): Unmarshal, Valid, Compact and Indent vs encoding/json, and Valid vs the recogniser; non-trivial = outputs compared equal / documents classified",
         "samples": [cases[0]["line"], cases[len(STRS)*2+1]["line"], cases[-1]["line"]],
         "stats": stats, "validator_runs": len(vcases), "disagreements": len(dis), "oracle_failures": len(fails)})
 
